@@ -24,7 +24,7 @@ def run(ctx):
     mism, st = vlib.pipeline(cmd + " | %s/climain" % bdir, timeout=6000)
     ctx.cov.update({
         "evaluations": st["cases"], "distinct_nontrivial": st["nontrivial"],
-        "rule": "a case is one scratch module (good1 with goose / !goose tagged files, and randomly sub/good2, my-pkg, bad = one untranslatable function among "
+        "rule": "a case is one scratch module (module path example.com/cm or example.com/cm/v2, optionally with a package in the module's root directory; good1 with goose / !goose tagged files, and randomly sub/good2, my-pkg, bad = one untranslatable function among "
                 "translatable ones, broken = does not type-check) x a pattern set (./..., one package, a list, ./sub/... + one, a pattern matching nothing) x "
                 "the loader directory (module root, or the sub-directory sub/ of the module; given by -dir from the root or from outside the module, or as the working directory with no -dir) x -ignore-errors x -typecheck x -source-comments x a prior state of the output directory (absent, result of an identical run, stale contents at "
                 "the target paths, an unrelated file); the per-package results fed to the model come from translating each matched package alone; "
